@@ -8,10 +8,11 @@ import itertools
 import re
 
 from .. import alphabet, refcal, vocab
-from ..common import lib, viol, ts_of
+from ..common import lib, viol, ts_of, stream
 from ..obs import obs, fmt
 
 PID = "C02"
+ON_LIBRARY_RAISE = "skip"  # the statement is about resolutions that are returned or streamed
 LEVEL = "exploration"
 RULE = (
     "Texts = token strings of <=2 tokens (alphabet of C01) + the value-complete grammar forms (all 31x12 day/month pairs incl. impossible ones, with and without year, "
@@ -42,6 +43,13 @@ def _grammar(tier):
                 out.append("{}.{}.2019 for 1 month".format(d, m))
                 out.append("{}. - {}.{}.2019".format(max(1, d - 2), d, m))
                 out.append("28.{}.2019 - {}.".format(m, d))
+    # 29 February of every year the year pattern admits (century rule: 1900 is not a leap year, 2000 is)
+    for y in range(1900, 2030):
+        out.append("29.02.{}".format(y))
+        if tier == "thorough" or y % 4 == 0 or y % 100 in (1, 99):
+            out.append("29 feb {}".format(y))
+            out.append("28.02.{} - 29.02.{}".format(y, y))
+            out.append("29.02.{} für 2 tage".format(y))
     hours = range(24)
     for a in hours:
         for b in hours:
@@ -143,7 +151,7 @@ def run_case(case):
     v = []
     n = 0
     sig = {"latent": latent}
-    for c in gen(text, ts=ts, timeout=0, max_stack_depth=depth, latent_time=latent):
+    for c in stream(text, ts, max_stack_depth=depth, latent_time=latent):
         if c is None:
             continue
         n += 1
